@@ -35,7 +35,7 @@ _r_enum_dotdotdot = re.compile(r"__dotdotdot\d+__$")
 _r_partial_array = re.compile(r"\[\s*\.\.\.\s*\]")
 _r_words = re.compile(r"\w+|\S")
 _parser_cache = None
-_r_int_literal = re.compile(r"-?0?x?[0-9a-f]+[lu]*$", re.IGNORECASE)
+_r_int_literal = re.compile(r"(?:-\s*)?0?x?[0-9a-f]+[lu]*$", re.IGNORECASE)
 _r_stdcall1 = re.compile(r"\b(__stdcall|WINAPI)\b")
 _r_stdcall2 = re.compile(r"[(]\s*(__stdcall|WINAPI)\b")
 _r_cdecl = re.compile(r"\b__cdecl\b")
@@ -482,7 +482,7 @@ class Parser:
         int_str = int_str.lower().rstrip("ul")
         neg = int_str.startswith('-')
         if neg:
-            int_str = int_str[1:]
+            int_str = int_str[1:].lstrip()
         # "010" is not valid oct in py3
         if (int_str.startswith("0") and int_str != '0'
                 and not int_str.startswith("0x")):
